@@ -3,9 +3,10 @@
     Sender: the RFC 4571 framing loop of nice_agent_send_messages_nonblocking_internal
     (agent.c:5759-5850): 2-byte big-endian length prefix, messages above 0xF800 bytes cut into
     consecutive frames, the walk over the caller's scatter buffers with offset / current_offset /
-    offset_in_buffer written out as the C does it.  An output vector is (pointer, size); the socket
-    layer reads [size] bytes at the pointer: [mreadn] is a checked read, so a vector that runs past
-    the end of the caller's buffer is a Fault ([None]), not a silently truncated slice.
+    offset_in_buffer written out as the C does it (after fix f9b160b: the vector of the buffer a frame
+    starts in has size MIN (size - offset_in_buffer, packet_len)).  An output vector is (pointer, size);
+    the socket layer reads [size] bytes at the pointer: [mreadn] is a checked read, so a vector that runs
+    past the end of the caller's buffer is a Fault ([None]), not a silently truncated slice.
 
     Receiver: the per-component reassembly state rfc4571_buffer / _buffer_offset / _frame_offset /
     _frame_size / _consumed_size / _wakeup_needed, the TCP branch of agent_recv_message_unlocked
@@ -77,7 +78,7 @@ Fixpoint copy_loop (bufs : list bytes) (oib plen : Z) : option (list bytes * Z) 
   match bufs with
   | [] => Some ([], 0)
   | b :: bs =>
-      let sz := Z.min (lenZ b) plen in
+      let sz := Z.min (w64 (lenZ b - oib)) plen in      (* MIN (size - offset_in_buffer, packet_len), gsize arithmetic *)
       match mreadn b oib sz with
       | None => None
       | Some s =>
@@ -433,6 +434,7 @@ Fixpoint rel_inner (fuel : nat) (s : rst) (k : kern) (bufs : list bytes) (acc : 
     | Some (RSuccess, s', k', m') =>
         let acc' := acc ++ valid_bytes m' in
         if negb bs_mode then Some (s', k', acc', RSuccess)
+        else if m_len m' =? 0 then Some (s', k', acc', RWouldBlock)     (* no room left in the caller's buffers *)
         else
           let bufs' := advance_bufs bufs (m_len m') in
           if Nat.ltb 0 (length bufs') then rel_inner f s' k' bufs' acc' else Some (s', k', acc', RSuccess)
